@@ -67,6 +67,9 @@ class P(Prop):
             for d in steps:
                 ts.append(ts[-1] + d)
             ps = [Fraction(rng.randint(0, 64), 64) * 4000 for _ in range(m)]
+            int_profile = rng.random() < 0.3           # whole-kW propulsion power handed over as an integer-typed series
+            if int_profile:
+                ps = [Fraction(rng.randint(0, 32) * 125) for _ in range(m)]
             if naux == 0:
                 aux = Fraction(0)
             elif rng.random() < 0.5:
@@ -75,7 +78,10 @@ class P(Prop):
                 aux = [Fraction(rng.randint(1, 64), 64) * 800 if rng.random() < 0.7 else Fraction(0) for _ in range(m)]
             out.append({"plant": {"comps": comps, "breakers": [[1, 2]] if nswb == 2 else [], "swbs": swbs}, "mech": mcomps,
                         "nprop": nprop, "naux": naux, "ts": ts, "ps": ps, "aux": aux,
-                        "message_aux_when_series": Fraction(rng.randint(1, 64), 64) * 800,
+                        "message_aux_when_series": Fraction(rng.randint(1, 64), 64) * 800, "int_profile": int_profile,
+                        # an operating mode of zero duration (an empty bin of the statistics) at some place, with its own values
+                        "zero_mode": {"at": rng.randrange(m), "power": Fraction(rng.randint(0, 64), 64) * 4000,
+                                      "aux": Fraction(rng.randint(1, 64), 64) * 800},
                         "profile": {"ts": sorted(rng.sample(range(int(ts[0]) - 50, int(ts[-1]) + 50), 3)),
                                     "speed": [rng.randint(0, 40) / 2 for _ in range(3)], "draft": [rng.randint(8, 20) / 2 for _ in range(3)]}})
         return out
@@ -110,8 +116,9 @@ class P(Prop):
         out = {}
         with np.errstate(all="ignore"):
             mc, es, sysm = self.build(case)
+            data = np.array([int(x) for x in ps], dtype=int) if case.get("int_profile") else ps
             r = mc.calculate_machinery_system_output_from_propulsion_power_time_series(
-                propulsion_power=pd.Series(index=ts, data=ps), auxiliary_power_kw=auxf)
+                propulsion_power=pd.Series(index=ts, data=data), auxiliary_power_kw=auxf)
             out["series"] = self.observe(case, es, sysm, r)
             if not series_aux:
                 mc, es, sysm = self.build(case)
@@ -142,6 +149,17 @@ class P(Prop):
                 propulsion_power=np.array(ps[:-1]), frequency=np.diff(np.array(ts)),
                 auxiliary_power_kw=(auxf[:-1] if series_aux else auxf))
             out["stat"] = self.observe(case, es, sysm, r)
+            # the same statistics with an empty bin (a mode of zero duration) in it
+            z = case.get("zero_mode")
+            if z:
+                k = min(z["at"], len(ps) - 1)
+                p2 = np.insert(np.array(ps[:-1]), k, float(z["power"]))
+                f2 = np.insert(np.diff(np.array(ts)), k, 0.0)
+                a2 = np.insert(auxf[:-1], k, float(z["aux"])) if series_aux else auxf
+                mc, es, sysm = self.build(case)
+                r = mc.calculate_machinery_system_output_from_statistics(propulsion_power=p2, frequency=f2, auxiliary_power_kw=a2)
+                o = self.observe(case, es, sysm, r)
+                out["stat_zero"] = {"snap": o["snap"], "at": k}
         return out
 
     def term(self, case, obs):
@@ -211,6 +229,11 @@ class P(Prop):
                 d = sysrun.figures_diff(sa, sb)
                 if d:
                     return f"route '{route}' gives other results than the time-series route for the same profile: {d[:3]}"
+        if "stat_zero" in obs and "stat" in obs:
+            for sa, sb in zip(obs["stat"]["snap"], obs["stat_zero"]["snap"]):
+                d = sysrun.figures_diff(sa, sb)
+                if d:
+                    return (f"operating-point route: a mode of zero duration inserted at place {obs['stat_zero']['at']} changes the results: {d[:3]}")
         return None
 
     def nontrivial(self, case, obs):
@@ -225,6 +248,10 @@ class P(Prop):
             t.append("two-equal-intervals")
         if any(x != int(x) for x in case["ts"]):
             t.append("time-stamps-not-whole-seconds")
+        if case.get("int_profile"):
+            t.append("integer-typed-propulsion-series")
+        if "stat_zero" in obs:
+            t.append("statistics-with-a-zero-duration-mode")
         if isinstance(case["aux"], list) and any(a == 0 for a in case["aux"][:-1]) and not all(a == 0 for a in case["aux"]):
             t.append("some-per-sample-aux-exactly-0")
         return t
